@@ -60,7 +60,7 @@ def run(facts, rep, tier):
         if not ok2:
             rep.add(Finding("R03.2", "zero address not dropped (DF%d)" % df, "DF%d: get_icao may return Some(0): %r" % (df, io), None))
         v = io.payload("Some") if isinstance(io, EnumV) and io.may("Some") else None
-        if v is None or v.bits is None:
+        if v is None or not isinstance(v, IntV) or v.bits is None:
             rep.oblige(False, ("addr", df))
             if df in AP_FORMATS:
                 n3 += 1
@@ -100,28 +100,25 @@ def run(facts, rep, tier):
     rep.instances("R03.3", n3, floor=6)
     rep.instances("R03.2", n1, floor=9)
 
-    # ---- R03.4 structural
-    muts = []
-    reads = []
-    for b in facts.bodies.values():
-        if b.kind == "promoted" or "::tests::" in b.name:
-            continue
-        for bb, t in b.calls():
-            c = t["callee"]
-            if _is_plane_map(c):
-                (muts if c.get("name") in HASHMAP_MUT else reads).append((b, bb, t))
+    # ---- R03.4 structural (independent of the style the updater is written in: entry().and_modify().or_insert(),
+    # match on the Entry, get_mut / insert - see sq/tableupd.py)
+    from ..tableupd import ALLOWED_MUTATORS, describe
+    T = describe(facts)
+    muts, reads = T["muts"], T["reads"]
     names = sorted(t["callee"]["name"] for _, _, t in muts)
-    ok = names == ["and_modify", "entry", "or_insert", "retain", "shrink_to_fit"]
+    ok = set(names) <= ALLOWED_MUTATORS and "retain" in names and bool(T["inserts"])
     rep.oblige(ok, ("mutators",))
     rep.sample({"rule": "R03.4", "table_mutators": names, "readers": sorted(t["callee"]["name"] for _, _, t in reads)})
     if not ok:
-        rep.add(Finding("R03.4", "table mutators %s" % names, "the aircraft table is modified by %s; expected exactly entry/and_modify/or_insert and retain/shrink_to_fit" % names, None))
-    upd = [(b, bb, t) for b, bb, t in muts if t["callee"]["name"] == "entry"]
-    if len(upd) != 1:
-        raise Broken("C03 anchor: %d entry() calls" % len(upd))
-    ub, ubb, ut = upd[0]
-    udu = DefUse(ub)
-    key = expr(udu, ut["args"][1])
+        rep.add(Finding("R03.4", "table mutators %s" % names, "the aircraft table is modified by %s; expected one keyed lookup (entry / get_mut) with an insert "
+                        "for a new address, and retain/shrink_to_fit in the sweep" % names, None))
+    ub, udu = T["body"], T["du"]
+    ubb, ut = T["lookup"]
+    outside = sorted({b.name for b, bb, t in muts if t["callee"]["name"] not in ("retain", "shrink_to_fit", "shrink_to") and b not in T["bodies"]})
+    rep.oblige(not outside, ("one-updater",))
+    if outside:
+        rep.add(Finding("R03.4", "rows are inserted / modified outside the updater", "besides %s the table is also modified in %s" % (ub.name, outside), None))
+    key = T["key"]
     ok = key[0] == "arg" and not key[2]
     rep.oblige(ok, ("key-param",))
     if not ok:
@@ -151,19 +148,20 @@ def run(facts, rep, tier):
     rep.sample({"rule": "R03.4", "updater_args": kinds})
     if not ok:
         rep.add(Finding("R03.4", "updater arguments %s" % kinds, "update_aircraft receives values that are not derived from the current line: %s" % kinds, reg.loc(sbi)))
-    # and_modify closure: captures + effects
-    am = [t for b, bb, t in muts if t["callee"]["name"] == "and_modify"][0]
-    r = udu.root(am["args"][1])
-    if not (r[0] == "rv" and r[1]["rv"].get("agg") == "closure"):
-        raise Broken("C03 anchor: and_modify closure")
-    clos = facts.bodies[r[1]["rv"]["closure"]]
-    caps = clos.j.get("captures") or []
-    badcap = [c for c in caps if "HashMap" in c["ty"] or "Planes" in c["ty"] or "RwLock" in c["ty"] or c["ty"].endswith("Plane")]
+    # the code run on a row: closures of the updater must not capture the table or another row; nothing reachable from the
+    # row-update entries may touch the table, the counters or global state
+    if not T["entries"]:
+        raise Broken("C03 anchor: the updater runs no crate function on the row it finds")
+    badcap = []
+    for cb_ in T["bodies"][1:]:
+        for c in cb_.j.get("captures") or []:
+            if "HashMap" in c["ty"] or "Planes" in c["ty"] or "RwLock" in c["ty"] or c["ty"].endswith("Plane"):
+                badcap.append((cb_.name.split("::")[-1], c["name"]))
     rep.oblige(not badcap, ("captures",))
     if badcap:
-        rep.add(Finding("R03.4", "and_modify closure captures %s" % [c["name"] for c in badcap], "the row-update closure captures the table or another row", clos.loc()))
+        rep.add(Finding("R03.4", "row-update closure captures %s" % badcap, "the row-update closure captures the table or another row", ub.loc()))
     cg = call_graph(facts)
-    reach = reachable_bodies(facts, [clos.name], cg)
+    reach = reachable_bodies(facts, sorted({e[0] for e in T["entries"]}), cg)
     bad_eff = set()
     for n in reach:
         for e in eff.direct.get(n, ()):
@@ -178,14 +176,23 @@ def run(facts, rep, tier):
     rep.oblige(not bad_eff and not statics_touched, ("closure-effects",))
     if bad_eff or statics_touched:
         rep.add(Finding("R03.4", "row update reaches table/global effects", "code run on a row can modify the table, the counters or global state: %s %s"
-                        % (sorted(bad_eff)[:3], statics_touched), clos.loc()))
-    # or_insert value: constructor called with the same key
-    oi = [t for b, bb, t in muts if t["callee"]["name"] == "or_insert"][0]
-    ve = expr(udu, oi["args"][1])
-    ok = ve[0] == "call" and ve[1] in facts.bodies and any(a == key for a in ve[2])
+                        % (sorted(bad_eff)[:3], statics_touched), ub.loc()))
+    # the inserted row: a crate constructor called with the same key
+    ok = False
+    ve = None
+    if T["ctor"] is not None:
+        ct, cbody, cdu_ = T["ctor"]
+        ve = [expr(cdu_, a) for a in ct["args"]]
+        keyname = ub.locals[keyarg].get("name") if keyarg is not None else None
+        for a in ve:
+            if a == key and cbody is ub:
+                ok = True
+            if a[0] == "capture" and keyname is not None and a[1].lstrip("*&") == keyname and not a[2]:
+                ok = True
     rep.oblige(ok, ("ctor-key",))
     if not ok:
-        rep.add(Finding("R03.4", "inserted row not built from the key", "or_insert's row is %s" % show(ve)[:100], span_loc(oi.get("span"))))
+        rep.add(Finding("R03.4", "inserted row not built from the key", "the row inserted for a new address is built by %s" %
+                        ([show(a)[:40] for a in ve] if ve is not None else "no crate constructor"), ub.loc()))
     rep.instances("R03.4", len(muts) + len(reads) + 4, floor=8, what="table call sites + provenance facts")
 
     # ---- R03.5
